@@ -49,8 +49,10 @@ package utils
 //@   assigns nothing
 //@   safety all
 
+// Go defines signed wrap-around: on inputs longer than 8 octets the result silently wraps; that is not a panic.
 //@ func BytesToInt
 //@   props C12
+//@   wraparound
 //@   loop 1 invariant 0 <= i && i <= len(bytes)
 //@   loop 1 decreases len(bytes) - i
 //@   assigns nothing
